@@ -113,6 +113,9 @@ def gen_E(rng, tier):
     return "E " + chunks(b"a + b")
 
 
+KF_RANDOM = False      # prefixed literals (known finding) at random: thorough tier only
+
+
 def g_free(rng, d):
     x = rng.random()
     if x < 0.25:
@@ -124,7 +127,7 @@ def g_free(rng, d):
         return rng.choice(IDS) + " = {" + ", ".join(rng.choice(PRIMS) for _ in range(rng.randint(1, 3))) + "}"
     if x < 0.5:
         return rng.choice(["::a", "a::b", "a::b::c", "a.b(c)", "p->x[i]", "a.b.c++", "throw x", "(a ? b : c) + 1", "x = y ? 1 : 2"])
-    if x < 0.505:
+    if x < 0.505 and KF_RANDOM:
         return rng.choice(['u8"s"', 'L"w" + 1', "L'c'", 'f(u"a", U"b")', '"km"_k', "'c'_z", 'R"(raw)"'])   # known finding: rare
     if x < 0.7:
         return rng.choice(["- -x", "+ +x", "& &x", "- --x", "+ ++x", "-- -x", "! !x", "~ ~x", "* *p", "- - -x", "a = - -b", "(- -a) * b",
@@ -401,6 +404,8 @@ def run(run, tier, seed, replay_case=None):
     model = C.build_model(PROP)
 
     rng = random.Random(seed * 7919 + 15)
+    global KF_RANDOM
+    KF_RANDOM = (tier != "quick")
     corpus = C.load_corpus(PROP)
     ne, nf, npg = (1500, 700, 14) if tier == "quick" else (6000, 3000, 50)
     cases = [c for c in corpus if not c.startswith("P ")] + fixed_cases()
